@@ -293,7 +293,7 @@ prop("C06", engine="e1", rule=(
     "definition equal across orders; non-trivial = a non-identity "
     "permutation and a tuple with >= 3 applicable definitions"),
     quick=dict(cases=10000, size=60), thorough=dict(cases=150000, size=100))
-prop("C07", engine="e1", rule=(
+prop("C07", engine="e1", program="c07", rule=(
     "stateful: a universe registry and 3..40 operations load/unload class, "
     "method, definition (real catalog push_back/remove of the registration "
     "records, cascading to dependants so every update sees a closed "
@@ -301,7 +301,12 @@ prop("C07", engine="e1", rule=(
     "classes dispatch per the model of the live registrations, next and "
     "report likewise, and an update with no change alters nothing; eager, "
     "indirect and deferred ids, with and without hash; non-trivial = an "
-    "update after a removal that changes some tuple's result"),
+    "update after a removal that changes some tuple's result. Second "
+    "generator (real shared libraries): a host and 2..3 generated shared "
+    "objects contributing definitions and new leaf classes, a generated "
+    "script of dlopen / dlclose / update steps; after each update every "
+    "tuple of the classes then known is called and the transcript compared "
+    "with a brute-force model of the modules loaded at that point"),
     quick=dict(cases=2500, size=60), thorough=dict(cases=60000, size=100))
 prop("C08", engine="e1", rule=(
     "one random graph registered canonically and through a random legal "
@@ -599,7 +604,7 @@ def replay_file(exe, path, fork=True):
 
 
 PROGRAM_ENGINES = {"c11": "proggen.c11", "c20": "proggen.c20",
-                   "c13": "proggen.c13"}
+                   "c13": "proggen.c13", "c07": "proggen.c07"}
 
 
 def program_module(name):
@@ -1048,7 +1053,7 @@ def write_manifest():
              "-fsanitize=thread: concurrent callers and a concurrent updater "
              "of another policy"},
             {"name": "e3", "path": "proggen",
-             "serves_properties": ["C11", "C20"],
+             "serves_properties": ["C07", "C11", "C12", "C13", "C20"],
              "kind_free_text": "seeded generators of C++ programs, compiled "
              "against /repo/include and run; the oracle is inside the "
              "generated program"},
